@@ -359,6 +359,44 @@ impl TypedFns {
     }
 }
 
+/// Reports every array type `[T; N]` inside `ty` whose size `N` is not a declared constant
+/// of type `usize` (the compiler looks the size up and relies on it being there).
+fn check_array_size_consts<'a>(
+    ty: &Type,
+    const_ty: &impl Fn(&str) -> Option<&'a Type>,
+    meta: MetaInfo,
+    errors: &mut TypeErrors,
+) {
+    match ty {
+        Type::ArrayConst(elem, size) => {
+            match const_ty(size) {
+                Some(Type::Unsigned(UnsignedNumType::Usize)) => {}
+                Some(actual) => {
+                    let e = TypeErrorEnum::UnexpectedType {
+                        expected: Type::Unsigned(UnsignedNumType::Usize),
+                        actual: actual.clone(),
+                    };
+                    errors.push(Some(TypeError::new(e, meta)));
+                }
+                None => {
+                    let e = TypeErrorEnum::UnknownIdentifier(size.clone());
+                    errors.push(Some(TypeError::new(e, meta)));
+                }
+            }
+            check_array_size_consts(elem, const_ty, meta, errors);
+        }
+        Type::Array(elem, _) | Type::ArrayConstExpr(elem, _) => {
+            check_array_size_consts(elem, const_ty, meta, errors);
+        }
+        Type::Tuple(fields) => {
+            for field in fields {
+                check_array_size_consts(field, const_ty, meta, errors);
+            }
+        }
+        _ => {}
+    }
+}
+
 /// Returns whether a value of type `ty` contains (by value, directly or through other
 /// structs, enums, tuples or arrays) a value of the struct or enum named `target`, not
 /// counting `ty` itself.
@@ -519,7 +557,10 @@ impl UntypedProgram {
             let mut fields = Vec::with_capacity(struct_def.fields.len());
             for (name, ty) in struct_def.fields.iter() {
                 match ty.as_concrete_type(&top_level_defs) {
-                    Ok(ty) => fields.push((name.clone(), ty)),
+                    Ok(ty) => {
+                        check_array_size_consts(&ty, &|c| const_types.get(c), meta, &mut errors);
+                        fields.push((name.clone(), ty))
+                    }
                     Err(e) => errors.extend(e),
                 }
             }
@@ -536,7 +577,11 @@ impl UntypedProgram {
                         let mut fields = Vec::with_capacity(variant_fields.len());
                         for field in variant_fields.iter() {
                             match field.as_concrete_type(&top_level_defs) {
-                                Ok(field) => fields.push(field),
+                                Ok(field) => {
+                                    let const_ty = |c: &str| const_types.get(c);
+                                    check_array_size_consts(&field, &const_ty, meta, &mut errors);
+                                    fields.push(field)
+                                }
                                 Err(e) => errors.extend(e),
                             }
                         }
@@ -649,6 +694,8 @@ impl UntypedFnDef {
             }
             match param.ty.as_concrete_type(top_level_defs) {
                 Ok(ty) => {
+                    let const_ty = |c: &str| defs.consts.get(c).copied();
+                    check_array_size_consts(&ty, &const_ty, self.meta, &mut errors);
                     env.let_in_current_scope(
                         param.name.clone(),
                         (Some(ty.clone()), param.mutability),
